@@ -73,6 +73,23 @@ def std_dataset(rng, **kw):
         D.groups = [g_ for p_, l_, _ in D.families for g_ in gen.encode(D.T, D.naming, p_, l_)]
         D.base_groups = list(D.groups)
         D.meta['twin_names'] = True
+    if D.naming == 'own' and not D.meta.get('twin_names') and not D.meta.get('species_split') and not D.meta.get('oma_style') and rng.random() < 0.08:
+        # names made of a few tokens joined by '_' or '/': concatenations of two names coincide for different pairs of genomes
+        # ('A' + '_' + 'B_C' = 'A_B' + '_' + 'C'; r13-C06a / C07b / C17a: caches keyed by joined names)
+        import itertools as _it
+        sep_ = rng.choice(['_', '/'])
+        pool_ = [sep_.join(c_) for n_ in (1, 2, 3) for c_ in _it.product(['A', 'B', 'C'], repeat=n_)]
+        nodes_ = list(gen.paths(D.T))
+        if len(nodes_) <= len(pool_):
+            new_ = dict(zip(nodes_, rng.sample(pool_, len(nodes_))))
+            old_leaf_ = {gen.sub(D.T, p_)[0]: new_[p_] for p_ in nodes_ if not gen.sub(D.T, p_)[1]}
+            def rn2_(t, p=()):
+                return (new_[p], tuple(rn2_(k_, p + (i_,)) for i_, k_ in enumerate(t[1])))
+            D.T = rn2_(D.T)
+            D.species = [(old_leaf_.get(n_, n_), g_) for n_, g_ in D.species]
+            D.groups = [g_ for p_, l_, _ in D.families for g_ in gen.encode(D.T, D.naming, p_, l_)]
+            D.base_groups = list(D.groups)
+            D.meta['colliding_names'] = True
     # the tree text is varied too: branch lengths, and (synthesised names) no internal names
     D.meta['lengths'] = rng.random() < 0.3
     D.meta['nointernal'] = rng.random() < 0.3
@@ -1495,7 +1512,7 @@ def c19(tier, seed):
                         except KeyError:
                             if sid in tn.scores:
                                 bad.append('score(%s) of %s raised KeyError although written' % (sid, tr.key(tn)))
-                    for pn in ('Note', 'Color', 'Source', 'TaxRange'):
+                    for pn in ['Note', 'Color', 'Source', 'TaxRange'] + gen.ATTR_LIKE_NAMES:
                         try:
                             v = x[pn]
                             if tn.props.get(pn) != v:
@@ -1534,6 +1551,12 @@ def c19(tier, seed):
                     ex.res.count('synthesised_groups')
                     if dict(sc) or dict(x._properties):
                         bad.append('synthesised HOG %s carries annotations' % tr.key(tn))
+                    # ... and answers KeyError to every property name (names that happen to be attributes of the object included)
+                    for pn in ['Note', 'TaxRange'] + gen.ATTR_LIKE_NAMES:
+                        try:
+                            bad.append('synthesised HOG %s returns %r for the property %r' % (tr.key(tn), x[pn], pn))
+                        except KeyError:
+                            pass
                     try:
                         r = repr(x)
                         if 'level=%s' % nf(tn.tx) not in r:
